@@ -957,10 +957,16 @@ func (r *run) callBuiltin(caller *frame, callpos token.Pos, fn *ssa.Builtin, arg
 		}
 		// symbolic byte sequences
 		if a0, ok := args[0].(*sym); ok {
+			if t1 := strTerm(args[1]); t1 == `""` {
+				return a0
+			}
 			return &sym{sx("str.++", a0.t, strTerm(args[1])), SBytes}
 		}
 		if a1, ok := args[1].(*sym); ok {
 			a0 := args[0].([]value)
+			if len(a0) == 0 {
+				return &sym{a1.t, SBytes}
+			}
 			return &sym{sx("str.++", strTerm(a0), a1.t), SBytes}
 		}
 		if s, ok := args[1].(string); ok {
